@@ -374,6 +374,9 @@ struct Obj {
   virtual std::string ser(const std::string& kind, const Obj* other) const = 0;
   virtual std::string trunc(const std::string& kind) const = 0;
   virtual std::string corrupt(const std::string& kind) const = 0;
+  // the same sweeps over a STORED image (legacy serial versions, shipped files) this object was loaded from
+  virtual std::string trunc_img(const std::string& kind, const std::vector<uint8_t>& img) const = 0;
+  virtual std::string corrupt_img(const std::string& kind, const std::vector<uint8_t>& img) const = 0;
 };
 
 static size_t preamble_bytes(const std::string& kind, const bytes_t& img) {
@@ -531,7 +534,10 @@ template<typename Tr> struct Fam : Obj {
   // ---- C11: every strict prefix, every path
   std::string trunc(const std::string& kind) const override {
     if (!cmp) throw no_such_object();
-    bytes_t img = Tr::ser_bytes(*cmp, kind, 0);
+    return trunc_img(kind, Tr::ser_bytes(*cmp, kind, 0));
+  }
+  std::string trunc_img(const std::string& kind, const bytes_t& img) const override {
+    if (!cmp) throw no_such_object();
     const int npaths = Tr::has_wrap ? 3 : 2;
     const size_t n = img.size();
     uint64_t sd = seed; int nvv = nv;
@@ -552,7 +558,10 @@ template<typename Tr> struct Fam : Obj {
   // ---- C11: corruption of every preamble byte
   std::string corrupt(const std::string& kind) const override {
     if (!cmp) throw no_such_object();
-    bytes_t img = Tr::ser_bytes(*cmp, kind, 0);
+    return corrupt_img(kind, Tr::ser_bytes(*cmp, kind, 0));
+  }
+  std::string corrupt_img(const std::string& kind, const bytes_t& img) const override {
+    if (!cmp) throw no_such_object();
     const int npaths = Tr::has_wrap ? 3 : 2;
     size_t npre = preamble_bytes(kind, img);
     struct C { size_t pos; uint8_t val; };
@@ -687,6 +696,18 @@ static std::string step(const std::vector<std::string>& w) {
     else if (fam == "aod") o = load_obj<AodTr>(fam, seed, img, nv);
     else return "bad-op";
     std::string c = o->content(); objs[id] = std::move(o); return c;
+  }
+  if (op == "truncimg" || op == "corruptimg") {   // <fam> <kind> <seed> <hex> [nv]: the C11 sweeps over a stored image
+    const std::string& fam = w[1]; uint64_t seed = u64_of(w[3]); bytes_t img = vh::bytes_of_hex(w[4]); int nv = w.size() > 5 ? atoi(w[5].c_str()) : 1;
+    std::unique_ptr<Obj> o;
+    if (fam == "theta") o = load_obj<ThetaTr>(fam, seed, img, nv);
+    else if (fam == "tf64") o = load_obj<TF64>(fam, seed, img, nv);
+    else if (fam == "ti64") o = load_obj<TI64>(fam, seed, img, nv);
+    else if (fam == "tstr") o = load_obj<TSTR>(fam, seed, img, nv);
+    else if (fam == "tcst") o = load_obj<TCST>(fam, seed, img, nv);
+    else if (fam == "aod") o = load_obj<AodTr>(fam, seed, img, nv);
+    else return "bad-op";
+    return op == "truncimg" ? o->trunc_img(w[2], img) : o->corrupt_img(w[2], img);
   }
   if (op == "BP" && w[1] == "pack") {
     uint8_t n = (uint8_t)atoi(w[2].c_str()); uint64_t v[8];
